@@ -126,6 +126,20 @@ func VerifyFunction(L *Loaded, cs *ContractSet, fn *ssa.Function, opts VerifyOpt
 	}
 	var specErrs []string
 	env.errs = &specErrs
+	if ctr != nil {
+		for _, pn := range ctr.Private {
+			for i, p := range fn.Params {
+				if p.Name() == pn {
+					if pt, ok := p.Type().Underlying().(*types.Pointer); ok {
+						if _, isStruct := pt.Elem().Underlying().(*types.Struct); isStruct {
+							x.privateRefs = append(x.privateRefs, privateRef{params[i].T, pt.Elem()})
+							x.funcsUsed["assume:separation: the object passed as "+pn+" to "+x.fnKey+" is not reachable by the backend or other foreign code (its fields survive foreign calls)"] = true
+						}
+					}
+				}
+			}
+		}
+	}
 	// object invariants of the receiver (or of the captured receiver of a closure)
 	for _, inv := range x.objInvsFor(fn, params, st) {
 		st.assume(inv)
@@ -416,6 +430,7 @@ func (x *Exec) runEntry(fn *ssa.Function, st *State, params []Val, oldSt *State,
 	fr := &Frame{fn: fn, vals: map[ssa.Value]Val{}, depth: 0, loops: computeLoops(fn), params: params, isEntry: true}
 	fr.onReturn = func(s *State, rs []Val) {
 		x.paths++
+		x.retPos = x.curPos
 		x.exitObligations(fr, s, rs, oldSt, specErrs)
 	}
 	for i, p := range fn.Params {
@@ -438,7 +453,7 @@ func (x *Exec) exitObligations(fr *Frame, st *State, rs []Val, oldSt *State, spe
 	oldEnv.fr = nil
 	env := x.entryEnv(fr, st)
 	env.errs = specErrs
-	env.fr = nil
+	env.fr = x.exitFrame // locals of the function at the return (by source name)
 	env.old = oldEnv
 	env.results = rs
 	env.hasRes = true
@@ -466,7 +481,9 @@ func (x *Exec) exitObligations(fr *Frame, st *State, rs []Val, oldSt *State, spe
 				name = c.Src
 			}
 			_ = i
-			x.oblige(st, "POST", "post("+name+")", x.evalBool(env, c.Expr), "postcondition")
+			g := x.evalBool(env, c.Expr)
+			x.curPos = x.retPos
+			x.oblige(st, "POST", "post("+name+")", g, "postcondition")
 		}
 	}
 	// O-OWN: everything obtained has been closed, returned or handed on
